@@ -31,6 +31,7 @@ async fn settle() {
 /// outport: fixed script; values whose last digit is 9 are mapped to None by the converter
 pub fn run(_a: &Args) {
     let log = Arc::new(Mutex::new(Vec::new()));
+    let log2: Arc<Mutex<Vec<String>>> = Arc::new(Mutex::new(Vec::new()));
     let rt = tokio::runtime::Builder::new_current_thread().enable_time().start_paused(true).build().unwrap();
     rt.block_on(async {
         let port = OutputPort::<u64>::default();
@@ -71,4 +72,52 @@ pub fn run(_a: &Args) {
         }
     });
     println!("log={}", log.lock().unwrap().join(","));
+    starting(&log2);
+}
+
+struct LateStarter {
+    log: Arc<Mutex<Vec<String>>>,
+    port: Arc<OutputPort<u64>>,
+    gate: Mutex<Option<tokio::sync::oneshot::Receiver<()>>>,
+}
+impl Actor for LateStarter {
+    type Msg = u64;
+    type State = ();
+    type Arguments = ();
+    async fn pre_start(&self, myself: ActorRef<u64>, _: ()) -> Result<(), ActorProcessingErr> {
+        // subscribes itself, then takes a while to finish starting: publications arrive while its status is still Starting
+        self.port.subscribe(myself, |v: u64| if v % 10 == 9 { None } else { Some(v) });
+        let g = self.gate.lock().unwrap().take();
+        if let Some(g) = g {
+            let _ = g.await;
+        }
+        Ok(())
+    }
+    async fn handle(&self, _: ActorRef<u64>, m: u64, _: &mut ()) -> Result<(), ActorProcessingErr> {
+        self.log.lock().unwrap().push(format!("s:{}", m));
+        Ok(())
+    }
+}
+
+/// a subscriber that is still starting when the first publications arrive must receive them (and the later ones) once it runs
+fn starting(log: &Arc<Mutex<Vec<String>>>) {
+    let rt = tokio::runtime::Builder::new_current_thread().enable_time().start_paused(true).build().unwrap();
+    rt.block_on(async {
+        let port = Arc::new(OutputPort::<u64>::default());
+        let (tx, rx) = tokio::sync::oneshot::channel();
+        let actor = LateStarter { log: log.clone(), port: port.clone(), gate: Mutex::new(Some(rx)) };
+        let spawn = tokio::spawn(async move { Actor::spawn(None, actor, ()).await });
+        settle().await;
+        port.send(2);
+        port.send(4);
+        settle().await;
+        let _ = tx.send(());
+        let _ = spawn.await;
+        settle().await;
+        port.send(6);
+        settle().await;
+        port.send(8);
+        settle().await;
+    });
+    println!("starting={}", log.lock().unwrap().join(","));
 }
